@@ -44,6 +44,7 @@ void apiCase(size_t idx) {
 	ao.nt = 1 + (int)rng.below(120);
 	ao.distinctWeights = idx % 3 != 0;
 	ao.usedObject = idx % 4 == 3;
+	ao.junkWeights = idx % 3 == 2;
 	ApiModel m = buildApiModel(seed, (int)idx, &ao);
 	if (!m.ok) return;
 	NifFile& nif = *m.nif;
